@@ -297,8 +297,18 @@ class CallMixin(object):
         scls, s = self.class_lookup(cname, '__setattr__')
         # attribute-specialised interface contract  <Class>.__setattr__[attr]  along the MRO of the static class
         if cname in self.world.classes:
-            for k in self.world.classes[cname].__mro__:
-                ck = '%s:%s.__setattr__[%s]' % (k.__module__, k.__qualname__, attr)
+            # (a contract may be specialised further by the kind of value stored: <Class>.__setattr__[attr/list])
+            vkind = 'list' if (val.is_py and isinstance(val.py, list)) or (not val.is_py and val.ty.kind == 'list') else None
+            mro = self.world.classes[cname].__mro__
+            kinded = None
+            if vkind is not None:
+                for k in mro:
+                    ck2 = '%s:%s.__setattr__[%s/%s]' % (k.__module__, k.__qualname__, attr, vkind)
+                    if ck2 in self.world.contracts:
+                        kinded = ck2
+                        break
+            for k in mro:
+                ck = kinded or '%s:%s.__setattr__[%s]' % (k.__module__, k.__qualname__, attr)
                 c = self.world.contracts.get(ck)
                 if c is not None and (ck != self.top_key_active() or self.call_stack):
                     if ck == self.top_key_active():
